@@ -136,6 +136,8 @@ def forward(front, multipart, idx, with_alg, full_idx, with_type, with_mpu, supp
                 return 'c15: forwarded argument unknown to the operation it is sent to'
         if op == 'abort_multipart_upload':
             continue
+        if 'CopySource' in kw and (kw['CopySource'] != {'Bucket': 'srcbkt', 'Key': 'srckey'}):
+            return 'c15: CopySource reaches the service modified (the caller\'s dict was changed)'
         for k, v in given.items():
             if front == 'copy' and op == 'head_object':
                 if k in HEAD_MAP:
